@@ -31,7 +31,7 @@ use std::time::Duration;
 
 pub const RULE_C13: &str = "Each run draws one world from the tape (arch x86/amd64/arm/arm64, OS, 1-6 modules with shared leaf names, occasionally two modules with one debug identity under different file names, and consistent / absent symbol files incl. CFI programs with aliased registers, 1-8 threads (occasionally 31-40, reaching FuturesUnordered) with frame-pointer chains / CFI-walkable / scan-only stacks, exception, thread names, unloaded modules, memory info, handles (version 1 or version 2 descriptors with object-information chains), Linux text streams incl. /proc/limits with several entries, macOS crash-info records and boot args, MemoryList or Memory64List) and one processor option set, then executes the same world 3-6 times, each execution on a fresh thread with its own hash seed and its own schedule: per-module supplier delay (0-3 gates on the simulated clock) or HTTP chunking and latencies (one symbol server, or two with every module on both / the first only / the second only), executor policy, spurious-poll probability, 0-2 companion tasks processing the same dump through the same symbolizer; with the HTTP supplier, executions after the first alternate between a fresh cache and the run's shared, already filled cache (served-from-cache must render the same as downloaded); executions after the first may run on a thread that has already processed and rendered an unrelated 32- or 64-bit dump. Execution 0 is the plain schedule (everything ready, FIFO, hash seed 0). All executions must render byte-identical JSON, pretty JSON, text and brief text. NON-TRIVIAL iff the world has at least two threads and at least two executions had different decision traces. DISTINCT = distinct (world digest, multiset of execution decision traces) among non-trivial runs.";
 
-pub const RULE_C03: &str = "Each run draws one world as for C13 but with adversarial shapes enabled (cyclic / descending / extreme frame pointers, sp at 0 / 4 / 2^64-1 / outside the stack, stack at the top of the address space, CFI that makes no progress or never reads memory, hostile STACK WIN sizes, short /proc/limits lines, memory-info ranges ending at 2^64-1 or empty, exception parameters up to 15, code bytes at the crashing ip, handle object-information chains with unknown element types / cycles / links outside the file, macOS crash-info records with damaged counts, sizes, versions and strings, INLINE records at nesting level 2^32-1 / with a missing level / 48 levels deep / nested in themselves) and hostile symbol files (corrupted, random grammar, unterminated), one option set of {stable_basic, stable_all, unstable_all}, an optional storage fault on the serialised dump (torn tail, lost or stale 512/4096-byte sector, bit rot, header bit flip), symbol supply through the gated supplier or the real HTTP supplier with 404/5xx/connect error/reset/clean cut/stall+timeout/corrupt cache entry, and an optional companion task that is cancelled mid-way. Oracles: no panic; executor steps, provider calls and frames per thread within budgets tied to the input size; peak live heap within 256 MiB + (16 KiB x permitted frames x (1 + most INLINE records of one function) + 4096 x input bytes) per concurrent processing; Ok state always renders as text, brief text, JSON and pretty JSON, the JSON parses, and rendering into a failing writer returns without panicking. NON-TRIVIAL iff the dump was accepted (processing returned a state) and at least one fault (storage, supply, hostile symbols, adversarial shape) was present. DISTINCT = distinct (world digest, fault description, decision trace) among non-trivial runs.";
+pub const RULE_C03: &str = "Each run draws one world as for C13 but with adversarial shapes enabled (cyclic / descending / extreme frame pointers, sp at 0 / 4 / 2^64-1 / outside the stack, stack at the top of the address space, CFI that makes no progress or never reads memory, hostile STACK WIN sizes, short /proc/limits lines, memory-info ranges ending at 2^64-1 or empty, exception parameters up to 15, code bytes at the crashing ip, handle object-information chains with unknown element types / cycles / links outside the file, macOS crash-info records with damaged counts, sizes, versions and strings, INLINE records at nesting level 2^32-1 / with a missing level / 16 levels deep / nested in themselves) and hostile symbol files (corrupted, random grammar, unterminated), one option set of {stable_basic, stable_all, unstable_all}, an optional storage fault on the serialised dump (torn tail, lost or stale 512/4096-byte sector, bit rot, header bit flip), symbol supply through the gated supplier or the real HTTP supplier with 404/5xx/connect error/reset/clean cut/stall+timeout/corrupt cache entry, and an optional companion task that is cancelled mid-way. Oracles: no panic; executor steps, provider calls and frames per thread within budgets tied to the input size; peak live heap within 256 MiB + (16 KiB x permitted frames x (1 + most INLINE records of one function) + 4096 x input bytes) per concurrent processing; Ok state always renders as text, brief text, JSON and pretty JSON, the JSON parses, and rendering into a failing writer returns without panicking. NON-TRIVIAL iff the dump was accepted (processing returned a state) and at least one fault (storage, supply, hostile symbols, adversarial shape) was present. DISTINCT = distinct (world digest, fault description, decision trace) among non-trivial runs.";
 
 // ---------------------------------------------------------------------------------------------
 // shared world data (Send: it crosses into sub-execution threads)
